@@ -75,7 +75,7 @@ def expected_terms(top):
                 elif cls == 'ShiftRightConstant': t = 'inl_shr %s %s %s' % (n(ch.r), n(ch.a), zlit(ch.getParameterValue('n')))
                 elif cls == 'Mux2': t = 'inl_mux2 %s %s %s %s' % (n(ch.r), n(ch.sel), n(ch.sel0), n(ch.sel1))
                 elif cls == 'AddCarryIn': t = 'inl_addci %s %s %s %s' % (n(ch.r), n(ch.a), n(ch.b), n(ch.ci))
-                elif cls == 'EqualConstant': t = 'inl_equalconst %s %s %s' % (n(ch.r), n(ch.a), zlit(ch.v))
+                elif cls == 'EqualConstant': t = 'inl_equalconst %s %s %s' % (n(ch.r), n(ch.a), zlit(ch.v & ((1 << ch.a.getWidth()) - 1)))   # the repaired emitter prints the masked constant
                 elif cls == 'Equal': t = 'inl_equal %s %s %s' % (n(ch.r), n(ch.a), n(ch.b))
                 elif cls == 'Range': t = 'inl_range %s %s %s %s' % (n(ch.r), n(ch.a), zlit(ch.high), zlit(ch.low))
                 elif cls == 'Bit': t = 'inl_bit %s %s %s' % (n(ch.r), n(ch.a), zlit(ch.bit))
@@ -138,7 +138,7 @@ def run_batch(ctx, tag, batch):
     #     EVERY stimulus — and the kernel design built from the same terms must reproduce the real simulator's trace on this stimulus
     try:
         from props import c01_compose
-        live = [b for b in batch if b['sim'][0] != 'parse' and None not in b['trace']]
+        live = [b for b in batch if b['sim'][0] != 'parse']      # rows excluded by the property (None: zero divisor) are skipped by c01_compose.same_trace
         for b, v in zip(live, c01_compose.check(tag + '_compose', live, with_trace=True)):
             b['compose'] = v
     except Exception as ex:
@@ -219,6 +219,7 @@ def run(ctx):
                 ctx.sample({'design': b['label'], 'ports': b['ins'], 'first_step': b['steps'][0], 'impl_trace_head': b['trace'][:3], 'text_head': b['text'][:300]})
             cv = b.get('compose', ('notrun',))
             comp_stats[cv[0]] = comp_stats.get(cv[0], 0) + 1
+            if cv[0] != 'ok': ctx.notes.setdefault('designs_outside_composition_theorem', []).append('%s: %s' % (b['label'][:60], cv[0]))
             if b['sim'] != ('ok',): bad.append(b)
             elif b.get('match') and b['match'][0] != 'ok': tie_only.append(b)
             elif cv[0] in ('nomatch', 'kernel-differs', 'error'): tie_only.append(b)
